@@ -286,7 +286,7 @@ Definition step (sc : scenario) (s : state) (e : event) : option state :=
   | ECollect p rs =>
     match in_round s p with
     | Some r =>
-      if all_mem_rows rs (pending s) && negb (r_owns r) && negb (r_updated r) then
+      if all_mem_rows rs (pending s) && negb (r_owns r) && negb (r_updated r) && negb (marker s) then
         let names := row_names rs in
         let r' := {| r_pid := r_pid r; r_alive := true; r_st := r_st r;
                      r_bl := fun j => match r_st r j with NS => diffN (r_bl r j) names | _ => r_bl r j end;
@@ -306,7 +306,7 @@ Definition step (sc : scenario) (s : state) (e : event) : option state :=
     match in_round s p with
     | Some r =>
       if is_job sc j && jstate_eqb (r_st r j) NS && flag sc j && has_failed_dep sc j (processed s)
-         && negb (r_owns r) && negb (r_updated r) && negb (memN j (row_names (rows s))) then
+         && negb (r_owns r) && negb (r_updated r) && negb (marker s) then
         let rw := {| rw_job := j; rw_rc := 1%Z; rw_cancel := true |} in
         let r' := {| r_pid := r_pid r; r_alive := true; r_st := upd (r_st r) j DONE;
                      (* the canceled name is removed from the other blocker sets in the next pass of the loop *)
